@@ -147,6 +147,12 @@ func TryNewAnyDataProvider(val any) (DataProvider, error) {
 
 		valTyp := x.Type().Elem()
 
+		// a map whose key or element type is a distinct named type (type S string; map[S]any,
+		// map[string]S) or a non-empty interface cannot be converted to the plain map types below
+		if keyTyp != reflect.TypeOf("") || valTyp.PkgPath() != "" || (valTyp.Kind() == reflect.Interface && valTyp.NumMethod() > 0) {
+			return &EmptyDataProvider{Underlying: val}, fmt.Errorf("could not convert %s to a data provider", x.Type().String())
+		}
+
 		switch valTyp.Kind() { // TODO: add more types
 		case reflect.String:
 			return NewSafeMapDataProvider(x.Convert(reflect.TypeOf(map[string]string(nil))).Interface().(map[string]string)), nil
